@@ -53,17 +53,28 @@ func TestVerifC14Writer(t *testing.T) {
 			if err != nil {
 				cs.Fail("NewAOFWriter: %v", err)
 			}
-			lw := persistence.NewLazyAOFWriterWithConfig(base, time.Duration(cs.R.Range(1, 200))*time.Millisecond, time.Second, vkit.Pick(cs.R, []int{1, 8, 1000}))
+			maxBuf := vkit.Pick(cs.R, []int{1, 8, 1000})
 			nw := cs.R.Range(1, 8)
 			per := cs.R.Range(5, ctx.N(200, 1500))
-			mode := vkit.Pick(cs.R, []string{"flush", "sync", "close", "snapshot", "flush_many", "snapshot_close"})
-			cs.Op("writers=%d per=%d mode=%s", nw, per, mode)
+			// "under load": in some cases more writes than the write queue holds (16384) against a
+			// writer goroutine that flushes entry by entry, so that Write blocks on the full queue
+			// while the control call is issued
+			full := cs.R.Chance(0.04)
+			if full {
+				maxBuf, nw, per = 1, 8, cs.R.Range(2200, 4000)
+				ctx.Count("writer.queue_overcommitted_cases", 1)
+			}
+			lw := persistence.NewLazyAOFWriterWithConfig(base, time.Duration(cs.R.Range(1, 200))*time.Millisecond, time.Second, maxBuf)
+			mode := vkit.Pick(cs.R, []string{"flush", "sync", "close", "snapshot", "flush_many", "snapshot_close", "snapshot_truncate", "snapshot_replace"})
+			cs.Op("writers=%d per=%d mode=%s maxbuf=%d", nw, per, mode, maxBuf)
 			var clock atomic.Int64 // logical time: one tick per acknowledged write / control call
 			acked := make([][]int64, nw)
+			started := make([][]int64, nw) // clock reading taken before the Write call
 			var wg sync.WaitGroup
 			stop := make(chan struct{})
 			for w := 0; w < nw; w++ {
 				acked[w] = make([]int64, per)
+				started[w] = make([]int64, per)
 				wg.Add(1)
 				go func(w int) {
 					defer wg.Done()
@@ -74,6 +85,7 @@ func TestVerifC14Writer(t *testing.T) {
 						default:
 						}
 						key := fmt.Sprintf("w%d_%d", w, i)
+						started[w][i] = clock.Load()
 						if err := lw.Write(persistence.FormatCommand("SET", []byte(key), []byte("v"))); err != nil {
 							return // writer closed: not acknowledged
 						}
@@ -88,6 +100,7 @@ func TestVerifC14Writer(t *testing.T) {
 				shadow []string
 			}
 			var ctls []ctl
+			beginReturned := int64(0) // tick taken right after BeginSnapshotMode returned
 			nctl := 1
 			if mode == "flush_many" {
 				nctl = cs.R.Range(3, 12)
@@ -106,8 +119,9 @@ func TestVerifC14Writer(t *testing.T) {
 					cerr = lw.Sync()
 				case "close":
 					cerr = lw.Close()
-				case "snapshot", "snapshot_close":
+				case "snapshot", "snapshot_close", "snapshot_truncate", "snapshot_replace":
 					cerr = lw.BeginSnapshotMode()
+					beginReturned = clock.Add(1)
 					k = "snapshot"
 				}
 				if cerr != nil {
@@ -121,7 +135,33 @@ func TestVerifC14Writer(t *testing.T) {
 				ctx.Count("control."+k, 1)
 			}
 			var shadow []string
-			if mode == "snapshot" {
+			if mode == "snapshot_truncate" || mode == "snapshot_replace" {
+				// what SaveSnapshot / RewriteAOF do between Begin and End: the file is truncated /
+				// replaced while writes keep arriving; those must go to the shadow buffer, not
+				// into the file that is cut
+				for i := 0; i < cs.R.Range(0, 3000); i++ {
+					_ = clock.Load()
+				}
+				var cerr error
+				if mode == "snapshot_truncate" {
+					cerr = lw.Truncate()
+				} else {
+					repl := filepath.Join(dir, "repl.aof")
+					rw, err := persistence.NewAOFWriter(repl, 0)
+					if err != nil {
+						cs.Fail("NewAOFWriter(replacement): %v", err)
+					}
+					rw.Write(persistence.FormatCommand("SET", []byte("replacement"), []byte("v")))
+					rw.Flush()
+					rw.Close()
+					cerr = lw.ReplaceWith(repl)
+				}
+				if cerr != nil {
+					cs.Fail("%s: Truncate/ReplaceWith returned error: %v", mode, cerr)
+				}
+				ctx.Count("control."+mode, 1)
+			}
+			if mode == "snapshot" || mode == "snapshot_truncate" || mode == "snapshot_replace" {
 				// writes acknowledged while snapshot mode is on must come back from EndSnapshotMode
 				for i := 0; i < cs.R.Range(0, 3000); i++ {
 					_ = clock.Load()
@@ -161,7 +201,7 @@ func TestVerifC14Writer(t *testing.T) {
 					shadowKeys[string(cmd.Args[0])] = true
 				}
 			}
-			covered := 0
+			covered, shadowCovered := 0, 0
 			for w := 0; w < nw; w++ {
 				for i := 0; i < per; i++ {
 					a := atomic.LoadInt64(&acked[w][i])
@@ -180,10 +220,18 @@ func TestVerifC14Writer(t *testing.T) {
 							}
 						}
 					}
-					if mode == "snapshot" {
+					if mode == "snapshot" || mode == "snapshot_truncate" || mode == "snapshot_replace" {
 						begin, end := ctls[0].issued, ctls[len(ctls)-1].issued
-						if a < end && !final[key] && !shadowKeys[key] {
-							cs.Fail("write %s acknowledged (tick %d) before EndSnapshotMode (tick %d) is neither in the file nor in the returned shadow writes", key, a, end)
+						// with a truncate / replace in between, what was in the file before snapshot
+						// mode is gone by design: the demand is on the writes INVOKED after
+						// BeginSnapshotMode had returned (a write invoked earlier may have reached
+						// the file before the switch even if its acknowledgement was recorded later)
+						inWindow := started[w][i] >= beginReturned
+						if (mode == "snapshot" || inWindow) && a < end && !final[key] && !shadowKeys[key] {
+							cs.Fail("write %s invoked (tick %d) after BeginSnapshotMode returned (tick %d) and acknowledged (tick %d) before EndSnapshotMode was issued (tick %d, mode %s) is neither in the file nor in the returned shadow writes", key, started[w][i], beginReturned, a, end, mode)
+						}
+						if inWindow && a < end {
+							shadowCovered++
 						}
 						if a < begin && shadowKeys[key] && !ctls[0].keys[key] {
 							cs.Fail("write %s acknowledged before BeginSnapshotMode drifted into the shadow buffer", key)
@@ -198,9 +246,10 @@ func TestVerifC14Writer(t *testing.T) {
 				}
 			}
 			ctx.Count("acked_writes_covered_by_a_control_call", int64(covered))
+			ctx.Count("acked_writes_in_snapshot_mode_window", int64(shadowCovered))
 			ctx.Eval(1)
 			if covered > 0 {
-				ctx.Distinct(fmt.Sprintf("%s/%d/%d/%d", mode, nw, per/50, covered/100))
+				ctx.Distinct(fmt.Sprintf("%s/%d/%d/%d/%v", mode, nw, per/50, covered/100, full))
 			}
 			ctx.Sample("case", 3, map[string]any{"mode": mode, "writers": nw, "writes_per_writer": per, "covered": covered})
 		})
